@@ -7,7 +7,7 @@ From Coq Require Import List Arith Bool NArith.
 From Conductor Require Import Model.Loader Model.Planner Model.Exec Model.RunCase
   Proofs.ExecInv Proofs.ExecTheorems Proofs.ExecMain Proofs.PlannerInv Proofs.PlannerExact Proofs.ComposeExec Proofs.ComposeStop Proofs.ExecStatus Proofs.ComposeStatus.
 From Conductor Require Import Proofs.WfPlanDec Proofs.ComposeKill.
-From Conductor Require Import Gen.Generated Proofs.GenTie.
+From Conductor Require Import Gen.Generated Proofs.GenTieExec.
 Import ListNotations.
 
 (* Scope notes.  (1) "The oracle fails an operation" = its launch raises a ConductorError, or its process ends with a
